@@ -490,6 +490,16 @@ func (e *c14Env) acceptorFlow(r *Run, c c14Case) {
 	if sidecar.SignOffer(e.ctx, t, loc, e.signer) != nil {
 		return
 	}
+	var nonce [32]byte
+	nb, _ := hex.DecodeString(b.Nonce)
+	copy(nonce[:], nb)
+	if b.Auto && c.MSeed%2 == 0 {
+		// an automatically negotiated ticket names the nonce of its bid
+		// template from the offer on: it is registered with an (unsigned)
+		// order part
+		t.Order = &sidecar.Order{BidNonce: nonce}
+		r.Count("flow/registered-with-nonce")
+	}
 	store := &c14MapStore{m: map[string]*sidecar.Ticket{}}
 	acc := pool.NewSidecarAcceptor(&pool.SidecarAcceptorConfig{
 		SidecarDB: store, Signer: e.signer, Wallet: test.NewMockWalletKit(),
@@ -500,9 +510,6 @@ func (e *c14Env) acceptorFlow(r *Run, c c14Case) {
 		r.Count("flow/register-failed")
 		return
 	}
-	var nonce [32]byte
-	nb, _ := hex.DecodeString(b.Nonce)
-	copy(nonce[:], nb)
 	if sidecar.SignOrder(e.ctx, reg, nonce, loc, e.signer) != nil {
 		return
 	}
@@ -770,84 +777,49 @@ func (e *c14Env) provider(r *Run, rng *rand.Rand) {
 	bidSCB := int64(-1 << 62) // "same as the offer's push amount", resolved below
 	var nonce [32]byte
 	rng.Read(nonce[:])
-	dev := "none"
-	if rng.Intn(10) < 7 {
-		devs := []string{"state", "recipient-nil", "recipient-nokey", "offer-unsigned", "offer-badsig",
-			"offer-changed", "not-ours", "outbound", "market-other", "cap-zero", "cap-odd", "push-over",
-			"bid-amt", "min-units", "min-units-wrap", "version", "order-present", "zero-nonce", "signer-other",
-			"bid-lease", "bid-push", "bid-unannounced", "bid-zeroconf"}
-		dev = devs[rng.Intn(len(devs))]
+	// an automatically negotiated ticket carries the nonce of its bid template
+	// from the moment it is offered: the order part is often already present
+	presetOrder := (b.Auto && rng.Intn(2) == 0) || rng.Intn(6) == 0
+	devs := []string{"state", "recipient-nil", "recipient-nokey", "offer-unsigned", "offer-badsig",
+		"offer-changed", "not-ours", "outbound", "market-other", "cap-zero", "cap-odd", "push-over",
+		"bid-amt", "min-units", "min-units-wrap", "version", "order-present", "zero-nonce", "signer-other",
+		"bid-lease", "bid-push", "bid-unannounced", "bid-zeroconf"}
+	// none, one, or two cooperating deviations
+	var chosen []string
+	switch x := rng.Intn(10); {
+	case x < 3:
+	case x < 8:
+		chosen = []string{devs[rng.Intn(len(devs))]}
+	default:
+		a, c := devs[rng.Intn(len(devs))], devs[rng.Intn(len(devs))]
+		chosen = []string{a}
+		if c != a {
+			chosen = append(chosen, c)
+		}
 	}
-	switch dev {
-	case "state":
-		t.State = sidecar.State((int(t.State) + 1 + rng.Intn(6)) % 7)
-	case "recipient-nil":
-		t.Recipient = nil
-	case "recipient-nokey":
-		if rng.Intn(2) == 0 {
-			t.Recipient.NodePubKey = nil
-		} else {
-			t.Recipient.MultiSigPubKey = nil
+	dev := "none"
+	if len(chosen) > 0 {
+		dev = strings.Join(chosen, "+")
+	}
+	wrap := false
+	for _, d := range chosen {
+		if d == "min-units-wrap" {
+			wrap = true
 		}
-	case "offer-unsigned":
-		t.Offer.SigOfferDigest = nil
-	case "offer-badsig":
-		t.Offer.SigOfferDigest = e.junkSig(rng)
-	case "offer-changed":
-		ms := []string{"id", "capacity", "pushAmt", "auto", "version"}
-		e.mutate(t, ms[rng.Intn(len(ms))], rng)
-		bidAmt = t.Offer.Capacity
-		minUnits = uint64(t.Offer.Capacity / 100000)
-	case "not-ours":
-		acctKey = 1 + b.SignKey%c14NKeys
-		locKey = acctKey
-	case "outbound":
-		auctionType = order.BTCOutboundLiquidity
-	case "market-other":
-		auctionType = order.AuctionType(2 + rng.Intn(5))
-	case "cap-zero":
-		t.Offer.Capacity, t.Offer.PushAmt, bidAmt, minUnits = 0, 0, 0, 0
-		t.Offer.SigOfferDigest = nil
-		_ = sidecar.SignOffer(e.ctx, t, loc, e.signer)
-	case "cap-odd":
-		t.Offer.Capacity += btcutil.Amount(1 + rng.Intn(99999))
-		bidAmt = t.Offer.Capacity
-		t.Offer.SigOfferDigest = nil
-		_ = sidecar.SignOffer(e.ctx, t, loc, e.signer)
-	case "push-over":
-		t.Offer.PushAmt = t.Offer.Capacity + btcutil.Amount(1+rng.Intn(1000))
-		t.Offer.SigOfferDigest = nil
-		_ = sidecar.SignOffer(e.ctx, t, loc, e.signer)
-	case "bid-amt":
-		bidAmt += btcutil.Amount(100000 * (1 + rng.Intn(3)))
-	case "min-units":
-		if minUnits > 1 && rng.Intn(2) == 0 {
-			minUnits = uint64(rng.Int63n(int64(minUnits)))
-		} else {
-			minUnits += 1 + uint64(rng.Intn(5))
+		e.providerDeviation(d, rng, t, b, loc, &auctionType, &bidAmt, &minUnits, &acctKey, &locKey, &nonce,
+			&bidLease, &bidSCB, &bidUnann, &bidZC)
+	}
+	if presetOrder && t.Order == nil {
+		t.Order = &sidecar.Order{BidNonce: nonce}
+		if rng.Intn(4) == 0 {
+			t.Order.BidNonce[rng.Intn(32)] ^= 1
 		}
-	case "min-units-wrap":
-		// outside the domain guard of the theorem: the int64 product wraps
-		minUnits += uint64(1+rng.Intn(31)) << 59
-	case "version":
-		t.Version = sidecar.Version(2 + rng.Intn(3))
-	case "order-present":
-		t.Order = &sidecar.Order{SigOrderDigest: e.junkSig(rng)}
-		rng.Read(t.Order.BidNonce[:])
-	case "zero-nonce":
-		nonce = [32]byte{}
-	case "signer-other":
-		locKey = 1 + b.SignKey%c14NKeys
-	case "bid-lease":
-		if t.Offer.LeaseDurationBlocks != 0 {
-			bidLease += 1 + uint32(rng.Intn(2016))
-		}
-	case "bid-push":
-		bidSCB = int64(t.Offer.PushAmt) + 1 + int64(rng.Intn(1000))
-	case "bid-unannounced":
-		bidUnann = !bidUnann
-	case "bid-zeroconf":
-		bidZC = !bidZC
+	}
+	if presetOrder {
+		r.Count("provider/preset-order")
+	}
+	if b.Auto {
+		r.Count("provider/auto")
 	}
 	if bidSCB == int64(-1<<62) {
 		bidSCB = int64(t.Offer.PushAmt)
@@ -890,6 +862,9 @@ func (e *c14Env) provider(r *Run, rng *rand.Rand) {
 		if derr != nil || !c14SigOK(in.Offer.SignPubKey, d, in.Offer.SigOfferDigest) {
 			why = append(why, "ticket does not carry a valid offer signature")
 		}
+		if derr != nil || !c14SigOK(acct.TraderKey.PubKey, d, in.Offer.SigOfferDigest) {
+			why = append(why, "the offer signature does not verify under the provider's own account key")
+		}
 		if in.Offer.SignPubKey == nil || !in.Offer.SignPubKey.IsEqual(acct.TraderKey.PubKey) {
 			why = append(why, "offer was not made by the provider's own key")
 		}
@@ -902,7 +877,7 @@ func (e *c14Env) provider(r *Run, rng *rand.Rand) {
 			why = append(why, "offer capacity differs from the bid amount")
 		}
 		mm := new(big.Int).Mul(new(big.Int).SetUint64(minUnits), big.NewInt(100000))
-		if dev != "min-units-wrap" && mm.Cmp(big.NewInt(int64(in.Offer.Capacity))) != 0 {
+		if !wrap && mm.Cmp(big.NewInt(int64(in.Offer.Capacity))) != 0 {
 			why = append(why, "offer capacity differs from the bid's minimum match")
 		}
 		if t.Order == nil || t.Order.BidNonce != nonce {
@@ -915,6 +890,87 @@ func (e *c14Env) provider(r *Run, rng *rand.Rand) {
 					"auctionType": uint32(auctionType), "bidAmt": int64(bidAmt), "minUnits": minUnits,
 					"acctKey": acctKey, "signerKey": locKey, "result": out})
 		}
+	}
+}
+
+// providerDeviation applies one deviation from the honest provider scenario.
+func (e *c14Env) providerDeviation(dev string, rng *rand.Rand, t *sidecar.Ticket, b c14Base,
+	loc keychain.KeyLocator, auctionType *order.AuctionType, bidAmt *btcutil.Amount, minUnits *uint64,
+	acctKey, locKey *int, nonce *[32]byte, bidLease *uint32, bidSCB *int64, bidUnann, bidZC *bool) {
+
+	switch dev {
+	case "state":
+		t.State = sidecar.State((int(t.State) + 1 + rng.Intn(6)) % 7)
+	case "recipient-nil":
+		t.Recipient = nil
+	case "recipient-nokey":
+		if t.Recipient == nil {
+			break
+		}
+		if rng.Intn(2) == 0 {
+			t.Recipient.NodePubKey = nil
+		} else {
+			t.Recipient.MultiSigPubKey = nil
+		}
+	case "offer-unsigned":
+		t.Offer.SigOfferDigest = nil
+	case "offer-badsig":
+		t.Offer.SigOfferDigest = e.junkSig(rng)
+	case "offer-changed":
+		ms := []string{"id", "capacity", "pushAmt", "auto", "version"}
+		e.mutate(t, ms[rng.Intn(len(ms))], rng)
+		(*bidAmt) = t.Offer.Capacity
+		(*minUnits) = uint64(t.Offer.Capacity / 100000)
+	case "not-ours":
+		(*acctKey) = 1 + b.SignKey%c14NKeys
+		(*locKey) = (*acctKey)
+	case "outbound":
+		(*auctionType) = order.BTCOutboundLiquidity
+	case "market-other":
+		(*auctionType) = order.AuctionType(2 + rng.Intn(5))
+	case "cap-zero":
+		t.Offer.Capacity, t.Offer.PushAmt, (*bidAmt), (*minUnits) = 0, 0, 0, 0
+		t.Offer.SigOfferDigest = nil
+		_ = sidecar.SignOffer(e.ctx, t, loc, e.signer)
+	case "cap-odd":
+		t.Offer.Capacity += btcutil.Amount(1 + rng.Intn(99999))
+		(*bidAmt) = t.Offer.Capacity
+		t.Offer.SigOfferDigest = nil
+		_ = sidecar.SignOffer(e.ctx, t, loc, e.signer)
+	case "push-over":
+		t.Offer.PushAmt = t.Offer.Capacity + btcutil.Amount(1+rng.Intn(1000))
+		t.Offer.SigOfferDigest = nil
+		_ = sidecar.SignOffer(e.ctx, t, loc, e.signer)
+	case "bid-amt":
+		(*bidAmt) += btcutil.Amount(100000 * (1 + rng.Intn(3)))
+	case "min-units":
+		if (*minUnits) > 1 && (*minUnits) < 1<<62 && rng.Intn(2) == 0 {
+			(*minUnits) = uint64(rng.Int63n(int64((*minUnits))))
+		} else {
+			(*minUnits) += 1 + uint64(rng.Intn(5))
+		}
+	case "min-units-wrap":
+		// outside the domain guard of the theorem: the int64 product wraps
+		(*minUnits) += uint64(1+rng.Intn(31)) << 59
+	case "version":
+		t.Version = sidecar.Version(2 + rng.Intn(3))
+	case "order-present":
+		t.Order = &sidecar.Order{SigOrderDigest: e.junkSig(rng)}
+		rng.Read(t.Order.BidNonce[:])
+	case "zero-(*nonce)":
+		(*nonce) = [32]byte{}
+	case "signer-other":
+		(*locKey) = 1 + b.SignKey%c14NKeys
+	case "bid-lease":
+		if t.Offer.LeaseDurationBlocks != 0 {
+			(*bidLease) += 1 + uint32(rng.Intn(2016))
+		}
+	case "bid-push":
+		(*bidSCB) = int64(t.Offer.PushAmt) + 1 + int64(rng.Intn(1000))
+	case "bid-unannounced":
+		(*bidUnann) = !(*bidUnann)
+	case "bid-zeroconf":
+		(*bidZC) = !(*bidZC)
 	}
 }
 
@@ -995,7 +1051,13 @@ func (e *c14Env) randomOps(r *Run, rng *rand.Rand) {
 			// the database holds the ticket as it was registered: same
 			// offer part and signature, no order part yet
 			st := c14Clone(c)
-			st.Order, st.State = nil, sidecar.StateRegistered
+			st.State = sidecar.StateRegistered
+			if st.Order != nil && rng.Intn(2) == 0 {
+				// registered as an auto ticket: nonce known, no signature yet
+				st.Order.SigOrderDigest = nil
+			} else {
+				st.Order = nil
+			}
 			if rng.Intn(3) == 0 {
 				st = nil
 			}
@@ -1082,7 +1144,7 @@ func runC14(r *Run) {
 		return
 	}
 	e := mkEnv(r.Seed)
-	for c := 0; c < r.N; c++ {
+	for c := 0; c < r.N && len(r.Violations) < 20; c++ {
 		b := c14RandBase(r.Rng)
 		if r.Search {
 			// densest where it matters: states that allow both verifications
